@@ -1093,8 +1093,11 @@ fn group_by_suffix(
         .max_suffix_size
         .unwrap_or_else(|| suffix_len(&ctx.devices, flat_iter(&groups)));
     let suffix_threshold = suffix_threshold(&ctx.devices, flat_iter(&groups));
-    let pre_filter =
-        |g: &FileGroup<FileInfo>| g.file_len >= suffix_threshold && g.unique_count() > 1;
+    // A suffix as long as the whole file tells nothing the other stages don't
+    // (and `len - suffix_len` must not underflow).
+    let pre_filter = |g: &FileGroup<FileInfo>| {
+        g.file_len >= suffix_threshold && g.file_len > suffix_len && g.unique_count() > 1
+    };
     let file_count = unique_file_count(groups.iter().filter(|g| pre_filter(g)));
     let progress = ctx.log.progress_bar(
         &ctx.phases.format(Phase::GroupBySuffix),
